@@ -581,6 +581,38 @@ func runC05(p *core.Prog, r *core.Report) {
 		}
 	}
 
+	// ---- R5 (cont.): what the pool constructor hangs on a new Store belongs to that Store alone — nothing it installs is a
+	// package-level object (a shared "always empty" Params, a shared buffer): Stores are used by requests in parallel
+	if ctor != nil {
+		var sharedObj []string
+		for _, f := range sx.WithClosures(p.Inl(ctor)) {
+			sx.Instrs(f, func(in ssa.Instruction) {
+				st, ok := in.(*ssa.Store)
+				if !ok {
+					return
+				}
+				fa, ok := st.Addr.(*ssa.FieldAddr)
+				if !ok || !sx.IsFreshObject(fa.X) {
+					return
+				}
+				if ptrTo(st.Val.Type()) == nil {
+					if _, isSl := st.Val.Type().Underlying().(*types.Slice); !isSl {
+						return
+					}
+				}
+				for o := range sx.Origins(st.Val) {
+					if strings.HasPrefix(o, "global:") {
+						sharedObj = append(sharedObj, sx.FieldOf(fa).Name()+" = "+short(sx.ValPath(st.Val))+" ("+o+") at "+p.Pos(in.Pos()))
+					}
+				}
+				if g, ok := st.Val.(*ssa.Global); ok {
+					sharedObj = append(sharedObj, sx.FieldOf(fa).Name()+" = &"+g.Name()+" at "+p.Pos(in.Pos()))
+				}
+			})
+		}
+		r.Check(len(sharedObj) == 0, "C05-R5", "the pool constructor gives every Store objects of its own", p.FuncPos(ctor), "no field of a new Store points at a package-level variable", "a new Store is handed a package-level object ("+strings.Join(uniq(sharedObj), "; ")+"): Stores serving requests in parallel append to the same memory — one request sees another's route parameters")
+	}
+
 	// ---- R7: serving a request leaves the Mux as it found it — the route a request selects depends on the registered
 	// routes only, not on what earlier requests left behind (a cache, a counter other than the ID sequence). The
 	// receiver-immutability analysis of C03 run from ServeHTTP: pools and atomics are exempt, sync.Map is state.
